@@ -24,6 +24,9 @@ type Ctx struct {
 	distinct          map[uint64]struct{}
 	distinctCap       int
 	violKeys          map[string]int
+	// DistinctByConstruction is added to the hash-set count: cases that are
+	// distinct because the enumeration is a bijection from indices (counted).
+	DistinctByConstruction int64
 }
 
 type propImpl struct {
@@ -112,7 +115,7 @@ type harnessFail struct{}
 var outPath string
 
 func writeResult(c *Ctx) {
-	c.Res.Distinct = int64(len(c.distinct))
+	c.Res.Distinct = int64(len(c.distinct)) + c.DistinctByConstruction
 	b, _ := json.Marshal(c.Res)
 	if err := os.WriteFile(outPath, b, 0o644); err != nil {
 		fmt.Fprintln(os.Stderr, "worker: cannot write result:", err)
